@@ -69,6 +69,62 @@ def check_vec(ctx, g, sr, op, enc, ref, hs, tol=None):
             return
 
 
+def tropical_totals(g):
+    """max-plus totals: best derivation weight of every nonterminal (weights <= 0, so |N|+1 rounds of
+    the Kleene iteration reach the fixed point); -inf when there is no derivation"""
+    NEG = float("-inf")
+    V = {X: NEG for X in M.nts_of(g)}
+    for _ in range(len(V) + 2):
+        W = dict(V)
+        for w, h, b in g["rules"]:
+            v = float(Fraction(w))
+            for k, x in b:
+                if k == "N":
+                    v += V.get(x, NEG)
+            if v > W[h]:
+                W[h] = v
+        V = W
+    return V
+
+
+def stream_tropical(ctx, n):
+    """agenda over MaxPlus on UNTRIMMED grammars that contain a dead cycle fed by a terminal (X -> Y a, Y -> X):
+    zero (-inf) updates circulate in that block; every other block must still get its value"""
+    gs = []
+    for _ in range(n):
+        g = M.rand_grammar(ctx.rng, nN=ctx.rng.randint(1, 3), nrules=ctx.rng.randint(2, 7), weights=[Fraction(-k, 4) for k in range(0, 9)])
+        nts = M.nts_of(g)
+        d1, d2 = max(nts) + 1, max(nts) + 2
+        extra = [["-1/4", d1, [["N", d2], ["T", 0]]], ["-1/2", d2, [["N", d1]]]]
+        if ctx.rng.random() < 0.7:
+            extra.append(["-1/4", ctx.rng.choice(nts), [["N", d1]]])
+        if ctx.rng.random() < 0.5:
+            extra.append(["-3/4", max(nts) + 3, [["N", g["S"]], ["N", g["S"]]]])
+        g = {"S": g["S"], "nT": g["nT"], "rules": g["rules"] + extra}
+        ctx.rng.shuffle(g["rules"])
+        gs.append(g)
+    for hs in (0, 1, 2):
+        res = run_jobs([{"g": g, "sr": "maxplus", "queries": [{"op": "agenda", "timeout": 60}, {"op": "treesum", "timeout": 60}]} for g in gs], hashseed=hs)
+        for g, r in zip(gs, res):
+            ctx.dist("maxplus:grammars-with-dead-cycle")
+            want = tropical_totals(g)
+            q = r[0]
+            ctx.cov["oracle_cases"] += 1
+            if "err" in q:
+                if not ctx.seen("agenda:maxplus:error"):
+                    ctx.violation("agenda:maxplus:error", f"agenda() over MaxPlus raised {q['err']}", {"kind": "total-error", "op": "agenda", "sr": "maxplus", "grammar": g, "error": q["err"]})
+                continue
+            for X, wv in want.items():
+                enc = q["ok"].get(M.ntname(X))
+                v = float("-inf") if enc is None else float(dec_val(enc))
+                ctx.count_case(("maxplus", json.dumps(g), X, hs), nontrivial=wv != float("-inf"))
+                if not (v == wv or abs(v - wv) <= 1e-9):
+                    if not ctx.seen("agenda:maxplus"):
+                        ctx.violation("agenda:maxplus", f"agenda()[{M.ntname(X)}] = {v} over MaxPlus; the best derivation of {M.ntname(X)} weighs {wv}",
+                                      {"kind": "total", "op": "agenda", "sr": "maxplus", "grammar": g, "X": X, "observed": str(v), "expected": str(wv)})
+                    break
+
+
 def run(ctx):
     quick = ctx.tier == "quick"
     ctx.cov["rule"] = ("agenda(), naive_bottom_up(), treesum(), expected_length on generated grammars: dependency-acyclic grammars with exact rationals vs the Coq tabulated Kleene iterate (proved = sum over all derivation trees), "
@@ -177,6 +233,42 @@ def run(ctx):
                     ctx.violation(f"{op}:float-error:{q['err'][:30]}", f"{op}() raised {q['err']} on a convergent grammar", {"kind": "total-error", "op": op, "sr": "float", "grammar": g, "error": q["err"]})
                     continue
                 check_vec(ctx, g, "float", op, q["ok"], want, hs, tol=1e-7)
+    # (d) MaxPlus on untrimmed grammars with a dead cycle
+    stream_tropical(ctx, 20 if quick else 150)
+    # (e) expected length when a tiny weight carries a huge length (the update must not be dropped by a tolerance on the weight alone)
+    stream_expectation(ctx, 6 if quick else 30)
+
+
+def stream_expectation(ctx, n):
+    jobs, wants = [], []
+    for _ in range(n):
+        d = ctx.rng.randint(28, 40)
+        tiny = Fraction(1, 10 ** ctx.rng.randint(13, 15))
+        wb = Fraction(ctx.rng.randint(1, 3), 4)
+        # S -> T (1) | b (wb);  T -> A0 (tiny);  A_i -> A_{i+1} A_{i+1};  A_d -> a      (floats: 2^d * tiny is not negligible)
+        rules = [["1/1", 0, [["N", 1]]], [M.fs(wb), 0, [["T", 1]]], [M.fs(tiny), 1, [["N", 2]]]]
+        for i in range(d):
+            rules.append(["1/1", 2 + i, [["N", 3 + i], ["N", 3 + i]]])
+        rules.append(["1/1", 2 + d, [["T", 0]]])
+        g = {"S": 0, "nT": 2, "rules": rules}
+        jobs.append({"g": g, "sr": "float", "queries": [{"op": "expected_length", "timeout": 60}]})
+        wants.append(float(tiny) * 2.0 ** d + float(wb))
+    res = run_jobs(jobs)
+    for job, want, r in zip(jobs, wants, res):
+        q = r[0]
+        ctx.dist("expected-length:tiny-weight-long-string")
+        ctx.cov["oracle_cases"] += 1
+        if "err" in q:
+            if not ctx.seen("expected_length:error"):
+                ctx.violation("expected_length:error", f"expected_length raised {q['err']}", {"kind": "total-error", "op": "expected_length", "sr": "float", "grammar": job["g"], "error": q["err"]})
+            continue
+        v = dec_val(q["ok"])
+        v = float(v[1]) if isinstance(v, (tuple, list)) else float(v)
+        ctx.count_case(("expected-length", json.dumps(job["g"])[:80]), nontrivial=True)
+        if abs(v - want) > 1e-6 * max(1.0, abs(want)):
+            if not ctx.seen("expected_length:tiny"):
+                ctx.violation("expected_length:tiny", f"expected_length = {v}; sum over strings of weight * length is {want} (a derivation of weight {float(Fraction(job['g']['rules'][2][0])):.1e} yields 2^{len(job['g']['rules']) - 4} symbols)",
+                              {"kind": "total", "op": "expected_length", "sr": "float", "grammar": job["g"], "X": 0, "observed": str(v), "expected": str(want)})
 
 
 def replay(obj):
